@@ -52,6 +52,17 @@ Definition nd_unlock_allowed (staked_at period txn_time : Z) : bool := Z.ltb (st
 Definition nd_first_error_sorted (err : Z -> option Z) (keys : list Z) : option Z := nd_first_error Z err (nd_sort keys).
 Definition nd_emit_sorted (events : list Z) (keys : list Z) : list Z := nd_emit_all Z events (nd_sort keys).
 
+(* reads go through the state cache: a key is served from the cache when it is warm there, from the trie
+   otherwise; [warm] is the cache-warmth oracle (which keys a node happens to hold: a node that executed the
+   earlier blocks itself holds many, a node that starts from the committed trie none) *)
+Definition nd_read (warm : Z -> bool) (cache trie : Z -> option Z) (k : Z) : option Z :=
+  if warm k then cache k else trie k.
+
+(* the cache holds, for the keys it holds, the committed value (C07; the chargeable-error path of updateState
+   therefore starts a fresh transaction cache, so that writes of a failed call are never committed) *)
+Definition nd_cache_coherent (warm : Z -> bool) (cache trie : Z -> option Z) : Prop :=
+  forall k, warm k = true -> cache k = trie k.
+
 (* a block as a sequence of steps; each step receives the iteration order chosen by the runtime for it *)
 Definition nd_step (S : Type) : Type := S -> list Z -> S.
 Fixpoint nd_run {S} (steps : list (nd_step S * list Z)) (orders : list (list Z)) (s : S) : S :=
